@@ -39,9 +39,23 @@ def label_of(o):
     return l[5:] if l.startswith('node.') else l
 
 
-def run_paths(cg, fname, mk, want_root=True):
-    """explore, then evaluate each returning path's emitted code.
-    yields (ctx, trace, finals | Unknown instance, child_cats)"""
+def repclass(cat):
+    if cat in FP:
+        return cat
+    if cat in INTSZ:
+        sz = INTSZ[cat]
+        if sz == 8:
+            return '64'
+        if sz == 4:
+            return '32'
+        return ('u' if cat in UNSIGNED else 's') + str(sz * 8)
+    return 'agg:' + str(cat)
+
+
+def run_paths(cg, fname, mk, want_root=True, max_combos=48):
+    """explore, then evaluate each returning path's emitted code with the term machine, once per
+    assignment of representation classes to the children whose type the path left open.
+    returns list of (ctx, trace, finals | Unknown instance, child_cats, it)"""
     it, res = cg.explore(fname, mk)
     out = []
     for ctx, o in res:
@@ -53,45 +67,80 @@ def run_paths(cg, fname, mk, want_root=True):
             continue
         tr = Trace(ctx)
         nodes = linearise(tr)
-        cats = {}
+        # children and their still-possible type classes (one representative per representation class)
+        kids = {}
+        cellof = {}
+        for n in nodes:
+            if n[0] == 'pseudo' and n[1] == 'expr':
+                child = it.settle(n[2]) if isinstance(n[2], View) else n[2]
+                name = label_of(child)
+                t = child.fields.get('ty') if isinstance(child, Obj) else None
+                if t is None:
+                    kids[name] = ['int']; cellof[name] = ('free', name); continue   # type never inspected on this path
+                if isinstance(t, View):
+                    t = it.settle(t)
+                cs = cat_of(t)
+                reps = {}
+                for c in cs:
+                    reps.setdefault(repclass(c), c)
+                kids[name] = list(reps.values())
+                cellof[name] = id(t.cell) if isinstance(t, View) else id(t)
+        # children sharing one type cell get the same class
+        cells = {}
+        for name, cid in cellof.items():
+            cells.setdefault(cid, []).append(name)
+        cids = list(cells)
 
-        def pseudo(s, n, it=it):
-            kind, child = n[1], n[2]
-            if isinstance(child, View):
-                child = it.settle(child)
-            name = label_of(child)
-            # a child may clobber every caller-saved register and the flags
-            for r in ('rcx', 'rdx', 'rsi', 'rdi', 'r8', 'r9', 'r10', 'r11'):
-                s.reg[r] = ('clobber', r, name)
-            for x in list(s.xmm):
-                s.xmm[x] = ('clobber', 'xmm%d' % x, name)
-            s.flags = None
-            s.scratch = {}
-            if kind == 'addr':
-                s.reg['rax'] = ('r', name + '&', 64)
-                return
-            if kind == 'stmt':
-                s.reg['rax'] = ('clobber', 'rax', name)
-                return
-            t = child.fields.get('ty') if isinstance(child, Obj) else None
-            cat = settle_cat(it, t) if t is not None else None
-            cats[name] = cat
-            if cat is None:
-                raise Unknown('type class of child %s is not determined on this path' % name)
-            where, term = child_value(name, cat)
-            if where == 'rax':
-                s.reg['rax'] = term
-            elif where == 'xmm0':
-                s.reg['rax'] = ('clobber', 'rax', name)
-                s.xmm[0] = term
-            else:
-                s.reg['rax'] = ('clobber', 'rax', name)
-                s.st.append(term)
-        try:
-            finals = Machine().run(nodes, lambda s: None, pseudo)
-        except Unknown as e:
-            finals = e
-        out.append((ctx, tr, finals, cats, it))
+        def combos(i, cur):
+            if i == len(cids):
+                yield dict(cur); return
+            names = cells[cids[i]]
+            for c in kids[names[0]]:
+                for nm in names:
+                    cur[nm] = c
+                yield from combos(i + 1, cur)
+        count = 0
+        for cats in combos(0, {}):
+            count += 1
+            if count > max_combos:
+                break
+
+            def pseudo(s, n, it=it, cats=cats):
+                kind, child = n[1], n[2]
+                if isinstance(child, View):
+                    child = it.settle(child)
+                name = label_of(child)
+                s.events.append(('eval', kind, name))
+                # a child may clobber every caller-saved register and the flags
+                for r in ('rcx', 'rdx', 'rsi', 'rdi', 'r8', 'r9', 'r10', 'r11'):
+                    s.reg[r] = ('clobber', r, name)
+                for x in list(s.xmm):
+                    s.xmm[x] = ('clobber', 'xmm%d' % x, name)
+                s.flags = None
+                s.scratch = {}
+                if kind == 'addr':
+                    s.reg['rax'] = ('r', name + '&', 64)
+                    return
+                if kind == 'stmt':
+                    s.reg['rax'] = ('clobber', 'rax', name)
+                    return
+                cat = cats.get(name)
+                if cat is None:
+                    raise Unknown('type class of child %s is not determined on this path' % name)
+                where, term = child_value(name, cat)
+                if where == 'rax':
+                    s.reg['rax'] = term
+                elif where == 'xmm0':
+                    s.reg['rax'] = ('clobber', 'rax', name)
+                    s.xmm[0] = term
+                else:
+                    s.reg['rax'] = ('clobber', 'rax', name)
+                    s.st.append(term)
+            try:
+                finals = Machine().run(nodes, lambda s: None, pseudo)
+            except Unknown as e:
+                finals = e
+            out.append((ctx, tr, finals, dict(cats), it))
     return out
 
 
@@ -254,3 +303,57 @@ def narrow_ok(to, pf, X, actual):
         if actual == ext(k, st, 64 if to in UNSIGNED else 32, lo(st, ('fp2int', w, pf, X))):
             return True
     return False
+
+
+# ------------------------------------------------------------- path signatures ---
+def zero_test_terms(name, cat):
+    """canonical conditions that test a child value of class `cat` against zero:
+    {cond_term: (nonzero_when_true, quality)}"""
+    out = {}
+    if cat in INTSZ:
+        _, V = child_value(name, cat)
+        wz = 64 if INTSZ[cat] == 8 else 32
+        out[canon(('cmp', 'eq', wz, lo(wz, V), C(0)))] = (False, 'exact')
+        out[canon(('cmp', 'ne', wz, lo(wz, V), C(0)))] = (True, 'exact')
+    elif cat in FP:
+        p = FP[cat]
+        X = ('r', name, 'f%d' % p)
+        Z = ('fconst', p, 0)
+        a, b = sorted([X, Z], key=repr)
+        out[('feq_or_unord', p, a, b)] = (False, 'nan-is-false')
+        out[('fne_and_ord', p, a, b)] = (True, 'nan-is-false')
+        out[('fne', p, a, b)] = (True, 'exact')
+        out[('feq', p, a, b)] = (False, 'exact')
+    return out
+
+
+def signature(s, cats):
+    """token string of one path through the emitted code: evaluations, truth tests
+    (decoded against the last evaluated child), node-carried labels, exits"""
+    toks = []
+    last = None
+    quality = set()
+    for e in s.events:
+        if e[0] == 'eval':
+            kind, name = e[1], e[2]
+            toks.append(('E:' if kind == 'expr' else ('A:' if kind == 'addr' else 'S:')) + name)
+            if kind == 'expr':
+                last = name
+        elif e[0] == 'label':
+            if e[1].startswith('{'):
+                toks.append('L:' + e[1].strip('{}'))
+        elif e[0] == 'branch':
+            c = canon(e[1])
+            taken = e[2]
+            dec = None
+            if last is not None and cats.get(last):
+                zt = zero_test_terms(last, cats[last])
+                if c in zt:
+                    nz, q = zt[c]
+                    quality.add(q)
+                    dec = 'T:%s:%d' % (last, int(nz == taken))
+            toks.append(dec or ('B:%r:%d' % (c, int(taken))))
+        elif e[0] == 'jump_out':
+            toks.append('OUT:' + e[1].strip('{}*'))
+    toks.append('END' if not (s.events and s.events[-1][0] == 'jump_out') else 'EXIT')
+    return ' '.join(toks), quality
